@@ -761,6 +761,49 @@ def invert_return_guards(sources: Dict[str, str]) -> Dict[str, str]:
     return out
 
 
+def hoist_local_imports(sources: Dict[str, str]) -> Dict[str, str]:
+    """Function-level `import` / `from ... import` statements moved to the top of their module (after the existing imports)."""
+    out = {}
+    for p, s in sources.items():
+        tree = ast.parse(s)
+        moved = []
+        top_names = {a.asname or a.name.split(".")[0] for st in tree.body if isinstance(st, (ast.Import, ast.ImportFrom)) for a in st.names}
+        for fn in ast.walk(tree):
+            if not isinstance(fn, (ast.FunctionDef, ast.AsyncFunctionDef)):
+                continue
+
+            def conv(body):
+                res = []
+                for st in body:
+                    if isinstance(st, (ast.Import, ast.ImportFrom)) and not (isinstance(st, ast.ImportFrom) and st.module == "__future__"):
+                        moved.append(st)
+                        continue
+                    for fld in ("body", "orelse", "finalbody"):
+                        sub = getattr(st, fld, None)
+                        if isinstance(sub, list) and sub and isinstance(sub[0], ast.stmt) and not isinstance(st, (ast.FunctionDef, ast.AsyncFunctionDef, ast.ClassDef, ast.Try)):
+                            new = conv(sub)
+                            setattr(st, fld, new or [ast.Pass()])
+                    res.append(st)
+                return res
+            fn.body = conv(fn.body) or [ast.Pass()]
+        if moved:
+            idx = 0
+            for i, st in enumerate(tree.body):
+                if isinstance(st, (ast.Import, ast.ImportFrom)) or (i == 0 and isinstance(st, ast.Expr) and isinstance(st.value, ast.Constant)):
+                    idx = i + 1
+            seen = set()
+            uniq = []
+            for st in moved:
+                k = ast.dump(st)
+                if k not in seen:
+                    seen.add(k)
+                    uniq.append(st)
+            tree.body[idx:idx] = uniq
+        ast.fix_missing_locations(tree)
+        out[p] = ast.unparse(tree)
+    return out
+
+
 def rename_all_locals(sources: Dict[str, str]) -> Dict[str, str]:
     out = {}
     for p, s in sources.items():
@@ -846,6 +889,8 @@ def _worker(args):
             overlay = explain_if_tests(sources)
         elif m.old == "<invert-return-guards>":
             overlay = invert_return_guards(sources)
+        elif m.old == "<hoist-local-imports>":
+            overlay = hoist_local_imports(sources)
         elif m.old == "<keywords-at-call-sites>":
             overlay = keywords_at_call_sites(sources)
         elif m.old == "<swap-if-else>":
@@ -901,6 +946,7 @@ GENERIC = [
     M("string literals used as keys hoisted into module-level constants", "", None, "<hoist-string-keys>", "", kind="equiv"),
     M("every compound if-test moved into an explaining variable on the line before", "", None, "<explain-if-tests>", "", kind="equiv"),
     M("function-level guards `if c: return` rewritten as `if not c: <rest of the body>`", "", None, "<invert-return-guards>", "", kind="equiv"),
+    M("function-level imports moved to the top of the module", "", None, "<hoist-local-imports>", "", kind="equiv"),
     M("methods of every class in reverse source order", "", None, "<reverse-methods>", "", kind="equiv"),
     M("swap the branches of every plain if/else under the negated test", "", None, "<swap-if-else>", "", kind="equiv"),
     M("annotate every local that is assigned once (x = v  ->  x: object = v)", "", None, "<annotate-single-assignments>", "", kind="equiv"),
